@@ -356,11 +356,14 @@ def report(prop, engine, agg, shrink_budget=20.0, max_shrunk=6):
     n_known = 0
     harness = list(agg.harness_errors)
     reported = []
+    known_groups = {}
     for k, (sig, v) in enumerate(sorted(agg.violations.items(), key=lambda kv: (kv[1]["index"], kv[0]))):
         what = match_known(known, sig)
         if what is not None:
             n_known += 1
-            lines.append("KNOWN-FINDING: property=%s %s [sig=%s, %d run(s)]" % (prop, what, sig, v["count"]))
+            g = known_groups.setdefault(what, {"sigs": 0, "runs": 0, "first": sig})
+            g["sigs"] += 1
+            g["runs"] += v["count"]
             continue
         trace = v["trace"]
         tests = 0
@@ -385,7 +388,12 @@ def report(prop, engine, agg, shrink_budget=20.0, max_shrunk=6):
         lines.append("violation: %s -- %s (seen in %d run(s), first at run index %d, minimised with %d re-executions)"
                      % (sig, vs[0]["message"], v["count"], v["index"], tests))
         lines.append("VIOLATION property=%s replay=%s" % (prop, path))
-    return {"lines": lines, "n_viol": n_viol, "n_known": n_known, "harness": harness, "reported": reported}
+    # one KNOWN-FINDING line per listed finding that was observed
+    for what, g in sorted(known_groups.items()):
+        lines.insert(0, "KNOWN-FINDING: property=%s %s [%d signature(s), %d observation(s), e.g. %s]" %
+                     (prop, what, g["sigs"], g["runs"], g["first"]))
+    return {"lines": lines, "n_viol": n_viol, "n_known": len(known_groups), "harness": harness, "reported": reported,
+            "known": [{"what": w, "signatures": g["sigs"], "observations": g["runs"]} for w, g in sorted(known_groups.items())]}
 
 
 def finish(prop, tier, engine, agg, info, t0, coverage_extra, assumptions, rule, level="exploration",
@@ -413,7 +421,7 @@ def finish(prop, tier, engine, agg, info, t0, coverage_extra, assumptions, rule,
         "budget_cutoff": info.get("budget_cutoff", False),
         "workers": info.get("workers"),
         "violations_reported": reported,
-        "known_findings_matched": n_known,
+        "known_findings_matched": [k for r in reports for k in r.get("known", [])],
         "harness_errors": harness[:5],
         "repo": repo_dir(),
     }
